@@ -519,6 +519,7 @@ def r0_config(ctx):
         ev = AEval(funcs=allf, consts=consts)
         ev.mut_builtins = {"next_key": next_key, "next_value": next_value, "replace": lambda rv, a: (C("Some", a[0]), rv)}
         ev.path_builtins = {}
+        ev.error_ctor_names = ("missing_field", "duplicate_field", "custom")
         for pre in ("serde::de::Error::", "de::Error::", "Error::", "A::Error::", "<A::Error as serde::de::Error>::"):
             ev.path_builtins[pre + "missing_field"] = lambda a: C("missing_field", a[0])
             ev.path_builtins[pre + "duplicate_field"] = lambda a: C("duplicate_field", a[0])
@@ -581,6 +582,7 @@ def r0_config(ctx):
              "Default": "Unknown", "locale": "Unknown", "": "Unknown", "locales_dir": "Unknown", "name_spaces": "Unknown"}
     for text, var in names.items():
         ev = AEval(funcs={}, consts=dict(consts, **{"Field::FIELDS": L()}))
+        ev.error_ctor_names = ("unknown_field", "custom", "invalid_value", "unknown_variant")
         for pre in ("serde::de::Error::", "de::Error::", "Error::", "E::"):
             for nm in ("unknown_field", "custom", "invalid_value", "unknown_variant"):
                 ev.path_builtins[pre + nm] = lambda a, nm=nm: C(nm, *a[:1])
